@@ -72,3 +72,18 @@ reg("C12", "model_checking",
     "(max chain, min chain, bit-mask union, flat) and several EDBs, TLC judges each real final database (interpreter and compiled, several -j, joins supplied as stateful user functors): "
     "at most one tuple per key and equality with the least fixpoint; other strata recomputed by spec/Datalog.tla.",
     EVAL_NOTE + " Hand-written families; negated atoms with a bound lattice value are not used (souffle matches them on the key only; outside the property).", "DESIGN.md 9 C12")
+reg("C09", "model_checking",
+    "TLC proves the delta-version scheme on spec/SemiNaive.tla; spec/SemiNaiveOracle.tla derives iteration and INSERT counts from the declarative semantics; spec/Ram.tla executes the real initial RAM (hook H3) and the invariant SemiNaiveOK demands exactly those counts; interpreter traces validated by spec/RamTrace.tla",
+    "S: for every rule width N<=4 and every old/delta tagging the scheme 'version i: delta at i, anything before, not-delta after' handles a combination with a new tuple by exactly one version (two wrong schemes must fail). "
+    "A: for generated recursive strata (1-3 mutually recursive relations, 1-3 recursive atoms per rule) and all EDBs over a 3-value domain (sampled to 48 per program), the REAL translator output is executed by the RAM-machine spec: "
+    "the loop runs exactly as many iterations as the naive fixpoint has stages, every iteration performs exactly the INSERT executions a non-redundant evaluation must (per clause, summed over versions), outputs equal the model. "
+    "T: the interpreter's statement traces on the optimised RAM are validated step by step (sizes, EXIT decisions, INSERT counts).",
+    EVAL_NOTE + " Rule shapes are a generated family, not all strata; INSERT counts are compared on the unoptimised RAM where every atom is a scan.", "DESIGN.md 9 C09")
+reg("C24", "model_checking",
+    "TLC evaluates spec/Functors.tla + Word32.tla + Dyadic.tla on boundary-value and seeded random argument vectors of every intrinsic functor and binary constraint (MC_Functors.tla); the same vectors are run through the real interpreter and through compiled code and every result row is compared with the spec's value",
+    "TLC enumerates, per FunctorOp/BinaryConstraintOp and arity, the product of boundary-value sets (0, +-1, type min/max, powers of two, shift counts around 32, +-0.0, +-inf, NaN, string/index ends) plus VERIF_SEED-seeded random vectors, "
+    "applies the TLA+ value semantics (wrap-around unsigned arithmetic on 16-bit limbs, truncating division, masked shifts, byte-ordered strings, exact dyadic binary32 floats, range generators) and checks algebraic cross-invariants of the spec itself; "
+    "every vector inside the defined domain is executed by the interpreter and by souffle -o compiled code and both must reproduce the spec's result; argument transport is checked on every row.",
+    "IEEE rounding is NOT modelled: float vectors whose exact result is not a binary32 normal number have no expected value and are only compared interpreter-vs-compiled. Not specified: ORD; MATCH beyond the c . c* .* fragment; "
+    "to_number/to_unsigned/to_float on non-canonical text; NaN sign. Undefined cases are excluded by the spec's domain predicate and never run. Trusted: TLC, the C++ compiler, libm exactness on exactly representable results, the python renderer/decoder of values.",
+    "DESIGN.md 9 C24")
